@@ -83,9 +83,9 @@ func runCheck(id, repo, verif, tier string, seed int, freeze bool, keep string, 
 			return 2
 		}
 	}
-	timeout := 10000
+	timeout := 25000
 	if tier == "thorough" {
-		timeout = 60000
+		timeout = 90000
 	}
 	if cfg.TimeoutMs > 0 && tier != "thorough" {
 		timeout = cfg.TimeoutMs
